@@ -135,32 +135,34 @@ def enclosing_tries(node, stop=None):
 # T-EXH gate used by C03.R1 / C12.R1 / C04.R4a / C17.R4
 # --------------------------------------------------------------------------------------
 
-# (function qualname suffix, missing member) -> reason.  Members that provably cannot reach the chain.
+# (module suffix, family root class, frozenset of missing members) -> (max number of such chains, reason).
+# Keys are structural (module + which members are absent), not function names: renaming or splitting the
+# function that contains the chain does not change them; a further chain with the same gap is still reported.
 EXH_EXEMPT = {
-    ("parse_op.move_up#2", "Op"): "second move_up pass is applied to the children of the single top-level Op produced by the first pass (asserted just before)",
-    ("transform::split_concatenated_axes", "Args"): "called per argument expression; Args/Op only exist above argument level",
-    ("transform::split_concatenated_axes", "Op"): "called per argument expression; Args/Op only exist above argument level",
-    ("stage2.solve::solve", "Args"): "stage2 receives one stage1 expression per tensor/constraint (parse_arg result); Args/Op never occur below argument level",
-    ("stage2.solve::solve", "Op"): "stage2 receives one stage1 expression per tensor/constraint (parse_arg result); Args/Op never occur below argument level",
-    ("stage2.solve::solve.map", "Args"): "stage2 receives one stage1 expression per tensor/constraint; Args/Op never occur below argument level",
-    ("stage2.solve::solve.map", "Op"): "stage2 receives one stage1 expression per tensor/constraint; Args/Op never occur below argument level",
-    ("util.solver::solve", "Sum"): "values of origvar_to_solvevar are constructed in the same function as Constant(...) or Variable(...) only",
-    ("util.solver::solve", "Product"): "values of origvar_to_solvevar are constructed in the same function as Constant(...) or Variable(...) only",
-    ("util.solver::solve.replace", "Variable"): "origvar_to_solvevar has an entry for every variable id that occurs in the equations (built from the same equations)",
+    ("namedtensor.stage1.parse", "Expression", frozenset({"Op"})): (1, "the second hoisting pass is applied to the children of the single top-level Op produced by the first pass (asserted just before)"),
+    ("namedtensor.stage1.transform", "Expression", frozenset({"Args", "Op"})): (1, "split_concatenated_axes is called per argument expression; Args/Op only exist above argument level"),
+    ("namedtensor.stage2.solve", "Expression", frozenset({"Args", "Op"})): (2, "stage2 receives one stage1 expression per tensor/constraint (parse_arg result); Args/Op never occur below argument level"),
+    ("util.solver", "Expression", frozenset({"Sum", "Product"})): (1, "values of the variable->solution map are constructed in the same function as Constant(...) or Variable(...) only"),
+    ("util.solver", "Expression", frozenset({"Variable"})): (1, "the substitution map has an entry for every variable id that occurs in the equations (built from the same equations)"),
 }
+_EXH_USED = {}
 
 
-def exh_exempt_reason(func, member):
-    q = func.qualname
-    for (suffix, mem), reason in EXH_EXEMPT.items():
-        if mem == member and q.endswith(suffix):
-            return reason
+def exh_exempt_reason(func, root, missing_names):
+    for (suffix, rootname, members), (limit, reason) in EXH_EXEMPT.items():
+        if func.module.name.endswith(suffix) and root.name == rootname and members == frozenset(missing_names):
+            key = (suffix, rootname, members)
+            used = _EXH_USED.setdefault(key, set())
+            used.add(func.qualname + ":" + str(len(used)) if func.qualname in used else func.qualname)
+            if len(used) <= limit:
+                return reason
     return None
 
 
 def exhaustiveness(p, rep, rid, funcs=None, modules=None, skip_modules=OFF_PATH_MODULES, internal_only=True):
     """Check every dispatch chain with an internal fall-through in the selected functions."""
     n = 0
+    _EXH_USED.clear()
     for f in p.funcs.values():
         if funcs is not None and f not in funcs:
             continue
@@ -180,8 +182,8 @@ def exhaustiveness(p, rep, rid, funcs=None, modules=None, skip_modules=OFF_PATH_
                     continue  # chain over builtin value kinds: no closed project domain
                 n += 1
                 real_missing = []
+                reason = exh_exempt_reason(f, root, [m.name for m in missing]) if missing else None
                 for m in missing:
-                    reason = exh_exempt_reason(f, m.name)
                     if reason:
                         rep.exempt(rid, f"{keybase}:missing:{m.name}", site, reason)
                     else:
